@@ -213,6 +213,12 @@ func (r *Report) Finish() int {
 			fmt.Printf("  (%d further violation signatures not printed)\n", len(r.seenSig)-r.printed)
 		}
 	}
+	if r.assume == nil {
+		r.assume = []string{}
+	}
+	if r.samples == nil {
+		r.samples = []interface{}{}
+	}
 	r.cov["samples"] = r.samples
 	if len(r.inconcl) > 0 {
 		r.cov["inconclusive"] = r.inconcl
